@@ -92,7 +92,7 @@ func (m *mesh) applyEvent(ev string, stopped map[string][]c01Edge) {
 
 func runC01Once(w *W, sc c01Scenario, r *xrun) []Violation {
 	var out CaseOut
-	synctest.Test(w.T, func(t *testing.T) {
+	bubble(w.T, func(t *testing.T) {
 		m := newMesh(defaultConsts, sc.Names...)
 		for _, e := range sc.Edges {
 			m.upEdge(e)
